@@ -443,6 +443,10 @@ def plan(tier):
             if len(v) <= (1 if tier == 'quick' else 2) and v.get('inband', '1') == '1':
                 for phase in ((0, 17.3) if tier == 'quick' else (0, 3.9, 17.3, 39.999)):
                     items.append(('run', (stream, 'live', v, phase)))
+                if 'scte35' in v.get('type', 'ping') and stream == 'bbb':
+                    # presentation times whose 90 kHz PTS crosses 2^32 (47 722 s) and wraps at 2^33 (95 444 s)
+                    for phase in (47722.0 - 600 + 30, 95443.7 - 600 + 30):
+                        items.append(('run', (stream, 'live', v, phase)))
     items.append(('codec-special', None))
     step = 2000
     stride = 1 if tier != 'quick' else 9
